@@ -320,7 +320,9 @@ def check_bulk(chk, it, tabs, configs):
             for p in ps:
                 t = htu.desugar(astdb.qtype(p))
                 if 'wasmMemory' in t:
-                    m = {'v': runtime.Traced(it, p['name'], {'data': unk('data:' + p['name'])})}
+                    rec = dict(runtime.memory_record(it, shared=0))
+                    rec['data'] = unk('data:' + p['name'])
+                    m = {'v': runtime.Traced(it, p['name'], rec)}
                     args.append(Ptr(m, 'v'))
                 else:
                     args.append(unk(p['name'], t))
